@@ -101,13 +101,13 @@ def build_request(p, sc_id=None):
         for d in t.get("deps") or []:
             if d["target"] in tidx:
                 deps[fid].append({"t": tidx[d["target"]], "gap": A.gap_seconds(d.get("gap")), "onstart": bool(d.get("onstart")),
-                                  "opts": bool(d.get("gap") or d.get("onstart"))})
+                                  "opts": bool(d.get("gap") or d.get("onstart") or d.get("glen")), "glen": A.glen_seconds(d)})
     for fid, t, par, _ in tasks:
         for d in t.get("prec") or []:
             tg = d["target"]
             if tg in tidx and not any(x["t"] == tidx[fid] for x in deps[tg]):
                 deps[tg].append({"t": tidx[fid], "gap": A.gap_seconds(d.get("gap")), "onstart": bool(d.get("onstart")),
-                                 "opts": bool(d.get("gap") or d.get("onstart"))})
+                                 "opts": bool(d.get("gap") or d.get("onstart") or d.get("glen")), "glen": A.glen_seconds(d)})
     T = []
     for fid, t, par, _ in tasks:
         ov = A.effective_override(p, t, sc_id) if sc_id else {}
